@@ -24,6 +24,10 @@ NUM_CAT_POOLS = {
     "bools": [True, False],
     "flags": [0.0, 1.0],
 }
+# bool-valued qualitative columns are outside the stated input domain ("strings or numbers"): they are only
+# generated where the oracle is purely differential (C10), never where correctness of their handling is judged
+DEFAULT_CAT_FLAVOURS = ["str", "str", "str", "str", "ints", "floats", "numstr", "mixed", "flags"]
+WITH_BOOLS = DEFAULT_CAT_FLAVOURS + ["bools", "bools"]
 WEIGHTS = [0, 1, 1, 2, 3, 5, 8]
 CONT_WEIGHTS = [0, 1, 1, 1, 2]
 
@@ -112,7 +116,7 @@ def target_spec(draw, kinds=("binary", "continuous")):
 
 
 @st.composite
-def feature_spec(draw, name, kind, blocks, dev_mode, dev_blocks, quant_pools=None, allow_missing=True):
+def feature_spec(draw, name, kind, blocks, dev_mode, dev_blocks, quant_pools=None, allow_missing=True, cat_flavours=None):
     n_levels = len(blocks)
     spec = {"name": name, "kind": kind}
     if kind == "continuous":
@@ -133,7 +137,7 @@ def feature_spec(draw, name, kind, blocks, dev_mode, dev_blocks, quant_pools=Non
         spec["ranking"] = list(values)
         wpool = WEIGHTS
     elif kind == "categorical":
-        flavour = draw(st.sampled_from(["str", "str", "str", "str", "ints", "floats", "numstr", "mixed", "bools", "flags"]))
+        flavour = draw(st.sampled_from(cat_flavours or DEFAULT_CAT_FLAVOURS))
         n_mod = draw(st.integers(2, 10))
         if flavour in ("bools", "flags"):
             n_mod = 2
@@ -214,6 +218,7 @@ def sample_case(
     dev_modes=("none", "none", "same", "perturbed", "independent"),
     quant_pools=None,
     allow_missing=True,
+    cat_flavours=None,
 ):
     target = draw(target_spec(kinds=target_kinds))
     blocks = target["blocks"]
@@ -230,7 +235,7 @@ def sample_case(
     for i in range(n_feat):
         kind = draw(st.sampled_from(list(feature_kinds)))
         prefix = {"continuous": "q", "discrete": "d", "ordinal": "o", "categorical": "c"}[kind]
-        features.append(draw(feature_spec(f"{prefix}{i}", kind, blocks, dev_mode, dev_blocks, quant_pools, allow_missing)))
+        features.append(draw(feature_spec(f"{prefix}{i}", kind, blocks, dev_mode, dev_blocks, quant_pools, allow_missing, cat_flavours)))
     return {
         "target": target,
         "dev_blocks": dev_blocks,
